@@ -97,7 +97,7 @@ def main():
         rows.append(row)
         print(json.dumps(row), flush=True)
         if a.tier == "quick":
-            rp = os.path.join(SEEDED, "results.json")
+            rp = os.environ.get("VP_SEEDED_RESULTS", os.path.join(SEEDED, "results.json"))
             try:
                 allr = json.load(open(rp))
             except Exception:  # noqa
